@@ -4,6 +4,8 @@ import itertools, math
 from fractions import Fraction
 from common import sx, run_dsgm, rng_for, is_model_error
 import dsgcase
+# known-finding classes whose mechanism lies in the complete encoder: the fast encoder's decode is still compared with its model
+FAST_MODEL_COVERS = {'K13'}
 
 
 def q(x):
@@ -255,7 +257,7 @@ def run(case, kind, seed=0, vec_limit=48, out_of_range=False, check_enum=True, e
     # constraints, no connection choices, outside the known-finding classes (their mechanisms are not modelled)
     fq, finfo = [], []
     fast_vars = None
-    if kind == 'fast' and not case.get('conn') and not dsgcase.guards(case):
+    if kind == 'fast' and not case.get('conn') and not (dsgcase.guards(case) - FAST_MODEL_COVERS):
         declared = {e[1]: (j, e[2]) for j, e in enumerate(E) if e[0] == 'sel'}
         # design-vector order: the declared selection variables as the encoding lists them (the analyzer orders choices
         # layer by layer), the undeclared (forced) ones after them -- they have one value; application order: by decision id
